@@ -41,6 +41,9 @@ def run(tier, rep):
         items.append({"item": doc, "claims": claims, "url": url}); index.append((ci, "orig"))
         if ci % 4 == 0:
             items.append({"item": doc, "claims": claims, "url": url, "route": "state"}); index.append((ci, "state"))
+        if ci % 4 == 1:
+            # the way the host delivers it: inside a status document (KeyStatus deserialisation, get_imds_rules(), set_imds_rules())
+            items.append({"item": doc, "claims": claims, "url": url, "route": "keystatus"}); index.append((ci, "state"))
         for label, d, c, u in gen_rbac.transforms(r, doc, claims, url):
             items.append({"item": d, "claims": c, "url": u}); index.append((ci, label))
     batches = [items[i:i + BATCH] for i in range(0, len(items), BATCH)]
